@@ -305,8 +305,16 @@ def gen_ops(rng, kind, rows, cols, n, ids, det="CCD"):
         w.append(("adopt", 7))
         w.append(("emptyAll", 8))
         w.append(("load", 3))
+        if kind != "photon":
+            w.append(("fromdict", 4))
         name = rng.choices([a for a, _ in w], [b for _, b in w])[0]
-        if name == "load":
+        if name == "fromdict":
+            ids[0] += 1
+            d = gen_operand(rng, ids[0], kind, rows, cols, "update")
+            if d["form"] not in ("ndarray", "list"):
+                d.update(form="ndarray", shape=[rows, cols])
+            ops.append(["fromdict", d])
+        elif name == "load":
             ids[0] += 1
             ops.append(["load", gen_file(rng, ids[0], det, kind, rows, cols)])
         elif name == "emptyAll":
@@ -429,7 +437,15 @@ def apply_op(c, op, plus, det=None, kind=None):
     """returns (outcome, obs, new container)"""
     name = op[0]
     try:
-        if name == "adopt":
+        if name == "fromdict":
+            # the detector is rebuilt from its own dictionary in which this bucket's entry was replaced (a file written by
+            # another tool / edited by hand): `from_dict` must validate the entry like an assignment
+            d = det.to_dict()
+            d["data"][kind] = materialise(op[1])
+            new_det = type(det).from_dict(d)
+            apply_op.new_det = new_det          # the history goes on with the rebuilt detector
+            c = getattr(new_det, kind)
+        elif name == "adopt":
             setattr(det, kind, make_source(op[1]))
             c = getattr(det, kind)
         elif name == "set":
@@ -486,8 +502,11 @@ def run_box(box):
     c = getattr(det, box["kind"])
     res = []
     for op in box["ops"]:
+        apply_op.new_det = None
         out, obs, c2 = apply_op(c, op, box.get("plus", False), det, box["kind"])
-        if c2 is not c and op[0] in ("load", "adopt", "emptyAll"):
+        if apply_op.new_det is not None:
+            det = apply_op.new_det
+        if c2 is not c and op[0] in ("load", "adopt", "emptyAll", "fromdict"):
             c = c2          # detector-level operations may install another bucket object
         if c2 is not c:
             return res + [{"out": "ok", "obs": "returned-a-different-object", "state": snapshot(c2)}]
@@ -612,13 +631,13 @@ def property_predicate(box, impl):
             bad.append((f"C13:invariant:{kind}.{name}" + ("" if name in ("adopt", "load") else (":empty" if prev is None else ":full")),
                         f"after op #{i} {name} on a{'n empty' if prev is None else ' full'} {kind} container: {why}", i))
             break
-        assignment = name in ("set", "set3", "update", "adopt", "load") or (name == "iadd" and prev is None)
+        assignment = name in ("set", "set3", "update", "adopt", "load", "fromdict") or (name == "iadd" and prev is None)
         if assignment and out != "ok" and st != prev:
             bad.append((f"C13:failed-assignment-changed-content:{kind}.{name}",
                         f"op #{i} {name} raised {out} but the content changed", i))
-        if out == "ok" and name in ("set", "set3", "update") and len(op) > 1 and op[1] is not None and not (name == "set3" and kind != "photon") \
+        if out == "ok" and name in ("set", "set3", "update", "fromdict") and len(op) > 1 and op[1] is not None and not (name == "set3" and kind != "photon") \
                 and not (name == "update" and kind == "photon"):
-            vio = assigned_violates(kind, rows, cols, name, op[1])
+            vio = assigned_violates(kind, rows, cols, "update" if name == "fromdict" else name, op[1])
             if vio:
                 bad.append((f"C13:violating-assignment-accepted:{kind}.{name}",
                             f"op #{i} {name} of {vio} was accepted instead of raising (the container now holds {st and st.get('npdt')} {st and st.get('shape')})", i))
@@ -638,7 +657,7 @@ def property_predicate(box, impl):
                 bad.append((f"C13:assignment-not-stored:{kind}", f"op #{i} {name} succeeded but the container does not hold the assigned values", i))
         # emptiness bookkeeping from the statement
         if out == "ok":
-            if name in ("set", "iadd") or (name == "set3" and kind == "photon") or (name == "update" and op[1] is not None):
+            if name in ("set", "iadd", "fromdict") or (name == "set3" and kind == "photon") or (name == "update" and op[1] is not None):
                 exp_empty = False
             elif name in ("adopt", "load"):
                 exp_empty = op[1]["hold"] is None
@@ -677,8 +696,11 @@ def final_container(box):
     det = get_detector(box)
     c = getattr(det, box["kind"])
     for op in box["ops"]:
+        apply_op.new_det = None
         _, _, c2 = apply_op(c, op, box.get("plus", False), det, box["kind"])
-        if c2 is not c and op[0] in ("load", "adopt", "emptyAll"):
+        if apply_op.new_det is not None:
+            det = apply_op.new_det
+        if c2 is not c and op[0] in ("load", "adopt", "emptyAll", "fromdict"):
             c = c2
         if c2 is not c:
             break
@@ -722,8 +744,40 @@ def box_view(box, c, side):
     return view
 
 
+def shared_views(sh, rows, cols):
+    """two arrays of shape (rows, cols) that are VIEWS of one numpy buffer"""
+    import numpy as np
+
+    rs = np.random.RandomState(sh["seed"])
+    dt = np_dtype(sh["dtype"])
+    mode = sh["mode"]
+    if mode == "halves":            # left and right half of one mosaic
+        big = rs.randint(0, 10, size=(rows, 2 * cols)).astype(dt)
+        return big[:, :cols], big[:, cols:]
+    if mode == "rows":              # upper and lower part of one stack
+        big = rs.randint(0, 10, size=(2 * rows, cols)).astype(dt)
+        return big[:rows], big[rows:]
+    if mode == "flip":              # a frame and the same frame read backwards
+        a = rs.randint(0, 10, size=(rows, cols)).astype(dt)
+        return a, a[::-1, ::-1]
+    if mode == "interleaved":       # even and odd columns of one buffer
+        big = rs.randint(0, 10, size=(rows, 2 * cols)).astype(dt)
+        return big[:, 0::2], big[:, 1::2]
+    if mode == "same":              # the very same view twice (equal)
+        a = rs.randint(0, 10, size=(rows, cols)).astype(dt)
+        return a, a[:, :]
+    if mode == "const":             # two different windows with equal values
+        big = np.full((rows, 2 * cols), 3, dtype=dt)
+        return big[:, :cols], big[:, cols:]
+    raise common.InfraError(mode)
+
+
 def run_eq(case):
     ca, cb = final_container(case["a"]), final_container(case["b"])
+    if case.get("shared"):
+        va_, vb_ = shared_views(case["shared"], case["a"]["rows"], case["a"]["cols"])
+        ca.array = va_
+        cb.array = vb_
     res = {}
     for nm, x, y in (("ab", ca, cb), ("ba", cb, ca)):
         try:
@@ -788,6 +842,8 @@ def lean_run_request(box):
             ops.append(op)
         elif op[1] is None:
             ops.append([op[0], None])
+        elif op[0] == "fromdict":
+            ops.append(["update", lean_operand(op[1])])
         elif op[0] == "emptyAll":
             ops.append(["emptyAll", bool(op[1])])
         elif op[0] == "adopt":
@@ -844,6 +900,13 @@ def gen_eq_case(rng, ids):
         seed = rng.randrange(10**6)
         a = directed_box(rng, ids, "photon", rows, cols, sa, seed, "float64")
         b = directed_box(rng, ids, "photon", rows, cols, sb, seed if rng.random() < 0.6 else seed + 1, "float64")
+    elif style < 0.82:  # two containers of one kind and shape holding different VIEWS of one numpy buffer
+        k = rng.choice(["pixel", "signal", "image", "phase", "pixel", "signal"])
+        a = directed_box(rng, ids, k, rows, cols, "empty")
+        b = directed_box(rng, ids, k, rows, cols, "empty")
+        a["ops"], b["ops"] = [], []
+        return {"a": a, "b": b, "shared": {"seed": rng.randrange(10**6), "dtype": rng.choice(UINTS if k == "image" else FLOATS),
+                                           "mode": rng.choice(["halves", "rows", "flip", "interleaved", "same", "const", "halves", "flip"])}}
     else:  # random histories
         a = gen_box(rng, ids, n=rng.choice([0, 1, 2, 4]))
         b = gen_box(rng, ids, kind=a["kind"] if rng.random() < 0.8 else None,
@@ -929,6 +992,35 @@ def body(ck: common.Check):
                 b["ops"] += [["load", {"id": ids[0], "skind": k, "rows": frows, "cols": fcols, "det": fdet, "hold": hold}],
                              ["read3" if kind == "photon3" and how == "same" else "read"], ["shape"]]
                 boxes.append(("load", b))
+    # directed: from_dict of a detector dictionary whose bucket entry does not fit (dtype / shape / stack / other geometry), 4 types
+    for det in ("CCD", "CMOS", "APD", "MKID"):
+        for kind in ("pixel", "signal", "image") + (("phase",) if det == "MKID" else ()):
+            good = "uint16" if kind == "image" else "float64"
+            for how in ("valid", "dtype-int", "dtype-float-or-uint", "dtype-complex", "transposed", "stack", "other-geometry", "list-int"):
+                if quick and how in ("dtype-complex", "list-int") and det in ("CMOS", "MKID"):
+                    continue
+                rows, cols = rng.choice([(2, 3), (3, 2), (1, 4)])
+                b = directed_box(rng, ids, kind, rows, cols, rng.choice(["full", "empty"]))
+                b["det"] = det
+                b["ops"] = [op for op in b["ops"] if op[0] != "read"]
+                ids[0] += 1
+                d = {"id": ids[0], "seed": rng.randrange(10**6), "fill": "pos", "form": "ndarray", "shape": [rows, cols], "dtype": good}
+                if how == "dtype-int":
+                    d["dtype"] = "int64"
+                elif how == "dtype-float-or-uint":
+                    d["dtype"] = "float64" if kind == "image" else "uint16"
+                elif how == "dtype-complex":
+                    d["dtype"] = "complex128"
+                elif how == "transposed":
+                    d["shape"] = [cols, rows]
+                elif how == "stack":
+                    d["shape"] = [2, rows, cols]
+                elif how == "other-geometry":
+                    d["shape"] = [rows + 1, cols + 2]
+                elif how == "list-int":
+                    d.update(form="list", dtype="int64")
+                b["ops"] += [["fromdict", d], ["read"], ["dtype"]]
+                boxes.append(("fromdict", b))
     # directed: photon assignments of arrays holding BOTH NaN and negative counts, every float type, every assignment path
     for dt in FLOATS:
         for path in ("set", "iadd", "plus", "set3", "iadd3", "plus3", "adopt", "set-after-full", "set3-after-full"):
@@ -1002,11 +1094,11 @@ def body(ck: common.Check):
         nan_skip = v is None and (impl["ab"] is not eq_expected(va, vb))
         if ans["spec"] is not eq_expected(va, vb) and not nan_skip:
             raise common.InfraError(f"python eq oracle and Lean eqSpecB disagree on {case}")
-    ck.rule = ("operation histories (1-12 ops: .array=, .array_3d=, update, +=/+, detector.<bucket> = <container of another detector, possibly modified in place after it was filled>, load_detector(detector, <file of a detector of the same/another type and geometry>), empty, detector.empty(reset=True/False), .array, .array_3d, .dtype, .shape) on the real "
+    ck.rule = ("operation histories (1-12 ops: .array=, .array_3d=, update, +=/+, <Detector>.from_dict(<its dictionary with this bucket's entry replaced by an ill-typed / ill-shaped / valid array>), detector.<bucket> = <container of another detector, possibly modified in place after it was filled>, load_detector(detector, <file of a detector of the same/another type and geometry>), empty, detector.empty(reset=True/False), .array, .array_3d, .dtype, .shape) on the real "
                "photon/pixel/signal/image/phase containers of CCD/CMOS/MKID/APD detectors of 1..5 x 1..5 pixels; operands: right/wrong "
                "shapes (transposed, +1, 1-D, 3-D, 0-d, broadcastable), all 19 numpy dtypes incl. object/str/datetime, lists, numpy and "
                "Python scalars, None, DataArrays with right/wrong dims/coords, negative/NaN/NaN-and-negative/huge/zero fills; photon assignments of NaN-and-negative arrays by every path (set, set3, +=/+ on empty, adopt) x float16/32/64 directed; detector.empty(True/False) on full / empty / NaN-holding buckets of every kind x CCD/CMOS/APD/MKID with non-square shapes followed by reads, directed; plus every dtype x "
-               "{empty, full} x kind directed; equality on pairs (all emptiness combinations, same/different kind, shape, values, 2-D/3-D); "
+               "{empty, full} x kind directed; equality on pairs (containers holding different views of ONE numpy buffer: halves, flipped, interleaved, identical; all emptiness combinations, same/different kind, shape, values, 2-D/3-D); "
                "non-trivial = at least two ops with at least one success (eq: at least one side full); distinct by canonical JSON")
     ck.assumptions = [
         "'shape' in the equality clause is the public .shape (for Photon: () when empty, else the stored array's shape)",
